@@ -55,6 +55,56 @@ Theorem C07_scope_order_irrelevant : forall pm allowed cmap s1 s2,
 Proof. exact scope_order_irrelevant. Qed.
 Print Assumptions C07_scope_order_irrelevant.
 
+(* ---- the token's own scope (a token minted by a refresh request with a narrower scope, by a refresh of such a
+   refresh, or by a down-scoping token exchange has a scope that is a proper subset of its grant's).  Every release point
+   hands the scope of the presented / minted token to get_claims; tied to the real userinfo, introspection, ID Token and
+   JWT access token by the correspondence of drv_C07.downscoped_tokens on such tokens. ---- *)
+
+(* what is released for a token with scope ts is bounded by the claims of ts (scopes the TOKEN carries and the client is
+   allowed), never by the grant's scope gs *)
+Theorem C07_token_scope_bound : forall pm m cl point sec ts gs req ui k v,
+  In (k, v) (release_tok pm m cl point sec (Some ts) gs req ui) ->
+  (In k (keys m.(m_base))
+   \/ In k (always_keys m.(m_always))
+   \/ (exists c, cl = Some c /\ m.(m_per_client) = true /\ In k (snd (client_claims m c point sec)))
+   \/ (scope_claim pm cl ts k /\
+       exists s, In s ts /\ In s (match (match cl with Some c => c.(c_allowed_scopes) | None => None end) with
+                                  | Some a => a | None => List.map fst pm end))
+   \/ In k (keys req))
+  /\ assoc k ui = Some v /\ v <> VNone.
+Proof. exact token_scope_bound. Qed.
+Print Assumptions C07_token_scope_bound.
+
+Theorem C07_grant_scope_irrelevant : forall pm m cl point sec ts gs1 gs2 req ui,
+  release_tok pm m cl point sec (Some ts) gs1 req ui = release_tok pm m cl point sec (Some ts) gs2 req ui.
+Proof. exact grant_scope_irrelevant. Qed.
+Print Assumptions C07_grant_scope_irrelevant.
+
+(* monotone: a narrower token scope permits no more (same claim with the same or the null specification) ... *)
+Theorem C07_restriction_monotone_in_token_scope : forall pm m cl point sec ts1 ts2 req,
+  (forall s, In s ts1 -> In s ts2) ->
+  permits_more (get_claims pm m cl point sec ts1 req) (get_claims pm m cl point sec ts2 req).
+Proof. exact restriction_monotone_in_token_scope. Qed.
+Print Assumptions C07_restriction_monotone_in_token_scope.
+
+(* ... and never releases more; base_claims is a Python dict, so its keys are unique *)
+Theorem C07_narrower_token_never_more : forall pm m cl point sec ts1 ts2 gs1 gs2 req ui k v,
+  NoDup (keys m.(m_base)) ->
+  (forall s, In s ts1 -> In s ts2) ->
+  In (k, v) (release_tok pm m cl point sec (Some ts1) gs1 req ui) ->
+  In (k, v) (release_tok pm m cl point sec (Some ts2) gs2 req ui).
+Proof. exact narrower_token_never_more. Qed.
+Print Assumptions C07_narrower_token_never_more.
+
+(* a down-scoped token releases nothing that a token carrying the grant's whole scope would not release *)
+Theorem C07_downscoped_within_grant : forall pm m cl point sec ts gs req ui k v,
+  NoDup (keys m.(m_base)) ->
+  (forall s, In s ts -> In s gs) ->
+  In (k, v) (release_tok pm m cl point sec (Some ts) gs req ui) ->
+  In (k, v) (release_tok pm m cl point sec None gs req ui).
+Proof. exact downscoped_within_grant. Qed.
+Print Assumptions C07_downscoped_within_grant.
+
 (* non-vacuity: email by scope (allowed), phone by scope (not allowed for the client), nickname by claims request with
    a value constraint that the user does not meet, name always added *)
 Definition pm : scope_map := [(PS "openid", [PS "sub"]); (PS "email", [PS "email"; PS "email_verified"]); (PS "phone", [PS "phone_number"])].
@@ -67,3 +117,12 @@ Example C07_nonvacuous :
                       [(PS "nickname", Some [SValue (VStr (PS "Other"))])] in
   keys (user_claims ui r) = [PS "name"; PS "email"].
 Proof. vm_compute. reflexivity. Qed.
+
+(* non-vacuity of the token-scope theorems: the grant has openid + email, the token was down-scoped to openid; the
+   down-scoped token releases only the always-added name, the grant-scope token also the e-mail address *)
+Example C07_downscoped_nonvacuous :
+  let m := mkModule [] true (Some (AList [PS "name"])) false in
+  let cl := mkClient None [] (Some [PS "openid"; PS "email"]) None in
+  keys (release_tok pm m (Some cl) (PS "userinfo") [] (Some [PS "openid"]) [PS "openid"; PS "email"] [] ui) = [PS "name"]
+  /\ keys (release_tok pm m (Some cl) (PS "userinfo") [] None [PS "openid"; PS "email"] [] ui) = [PS "name"; PS "email"].
+Proof. vm_compute. split; reflexivity. Qed.
